@@ -284,20 +284,44 @@ def make_historical_spec(st, idx, tier):
                 bump=dict(dem=int(rng.integers(1, 5000)), gop=int(rng.integers(1, 5000))))
 
 
-def run_historical(spec, stats):
-    from elexmodel.client import HistoricalModelClient
-    from nightsim.runner import FEED_COLS, STR_COLS, table_digest
+HIST_ID = "2018-11-06_USA_G"
 
-    world, p = spec["world"], spec["profile"]
-    eid = world["election_id"]
-    hid = "2018-11-06_USA_G"
+
+def historical_evaluation(spec, hist, profile=None):
+    """One HistoricalModelClient run against a fresh sim bucket holding the configs and the historical election's
+    preprocessed data `hist`.  Returns (outcome string, {table name: frame})."""
+    from elexmodel.client import HistoricalModelClient
+    from nightsim.runner import FEED_COLS
+
+    world, p = spec["world"], (profile or spec["profile"])
+    eid, hid = world["election_id"], HIST_ID
     cfg = copy.deepcopy(world["config"])
     cfg[eid][0]["historical_election"] = [hid]
     hcfg = {hid: copy.deepcopy(cfg[eid])}
+    bucket = seams.STORAGE.new_night()
+    seams.set_app_env("local")
+    root = "elex-models-dev"
+    bucket.seed_object(f"{root}/{eid}/config/{eid}.json", json.dumps(cfg))
+    bucket.seed_object(f"{root}/{hid}/config/{hid}.json", json.dumps(hcfg))
+    hdf = pd.DataFrame(hist)
+    bucket.seed_object(f"{root}/{hid}/data/{world['office']}/data_{world['unit_type']}.csv", hdf.to_csv(index=False))
+    cur = pd.DataFrame(spec["live"])[FEED_COLS]
+    cur["geographic_unit_fips"] = cur["geographic_unit_fips"].astype(str)
+    client = HistoricalModelClient()
+    try:
+        res = client.get_historical_evaluation(cur, eid, world["office"], list(p["estimands"]), list(p["prediction_intervals"]),
+                                               p["threshold"], world["unit_type"], pi_method=p["pi_method"], aggregates=list(p["aggregates"]),
+                                               features=list(p["features"]), model_parameters=copy.deepcopy(p["model_parameters"]), save_output=[])
+        est = res[hid]["estimates"]
+        return "ok", {k: v.copy() for k, v in est.items()}
+    except Exception as e:  # noqa: BLE001
+        return f"{type(e).__module__}.{type(e).__qualname__}: {e}", {}
+
+
+def run_historical(spec, stats):
+    world, p = spec["world"], spec["profile"]
     outs = []
     for variant in ("base", "perturbed"):
-        bucket = seams.STORAGE.new_night()
-        seams.set_app_env("local")
         hist = copy.deepcopy(spec["hist"])
         if variant == "perturbed" and spec["victim"] is not None:
             for r in hist:
@@ -305,22 +329,7 @@ def run_historical(spec, stats):
                     r["results_dem"] += spec["bump"]["dem"]
                     r["results_gop"] += spec["bump"]["gop"]
                     r["results_turnout"] += spec["bump"]["dem"] + spec["bump"]["gop"]
-        root = "elex-models-dev"
-        bucket.seed_object(f"{root}/{eid}/config/{eid}.json", json.dumps(cfg))
-        bucket.seed_object(f"{root}/{hid}/config/{hid}.json", json.dumps(hcfg))
-        hdf = pd.DataFrame(hist)
-        bucket.seed_object(f"{root}/{hid}/data/{world['office']}/data_{world['unit_type']}.csv", hdf.to_csv(index=False))
-        cur = pd.DataFrame(spec["live"])[FEED_COLS]
-        cur["geographic_unit_fips"] = cur["geographic_unit_fips"].astype(str)
-        client = HistoricalModelClient()
-        try:
-            res = client.get_historical_evaluation(cur, eid, world["office"], list(p["estimands"]), list(p["prediction_intervals"]),
-                                                   p["threshold"], world["unit_type"], pi_method=p["pi_method"], aggregates=list(p["aggregates"]),
-                                                   features=list(p["features"]), model_parameters=copy.deepcopy(p["model_parameters"]), save_output=[])
-            est = res[hid]["estimates"]
-            outs.append(("ok", {k: v.copy() for k, v in est.items()}))
-        except Exception as e:  # noqa: BLE001
-            outs.append((f"{type(e).__module__}.{type(e).__qualname__}: {e}", {}))
+        outs.append(historical_evaluation(spec, hist))
     stats.polls += 2
     stats.evaluations += 1
     out = []
